@@ -494,6 +494,8 @@ package storage
 //@              (forall i int :: 0 <= i && i < old(cnt(parent)) ==> ic(parent,i) == old(ic(parent,i)))
 //@   ensures[nosplit.parent; C01 C11] result == nil && parent != nil && cnt(parent) == old(cnt(parent)) ==> parent.rightOffset == old(parent.rightOffset) &&
 //@              (forall i int :: 0 <= i && i < cnt(parent) ==> ic(parent,i) == old(ic(parent,i)))
+//@   ensures[split.right; C01 C11; witness np=newPg] result == nil && parent != nil && cnt(parent) == old(cnt(parent)) + 1 ==>
+//@              exists np *btreeNode :: fresh(np) && parent.rightOffset == np.fileOffset
 // Stamps follow changes one level up as well: an internal node that gained no separator keeps its stamp (it must not look newer
 // than the log records of rows that only went into its leaves), and a root created above a split internal node is stamped.
 //@   ensures[cur.nostamp; C04] result == nil && cnt(curNode) == old(cnt(curNode)) ==> curNode.lastLSN == old(curNode.lastLSN) && curNode.dirty == old(curNode.dirty)
